@@ -57,7 +57,9 @@ type c38Call struct {
 	pre, post c38Env
 	ans       []byte
 	fail      bool
-	late      bool // the error surfaces only after the consumer returned nil
+	late      bool // the stream breaks: Backend.Load ends with an error although part of the data was delivered
+	mid       bool // with late: the READER fails mid-stream (n>0 bytes, then a read error, not EOF) instead of
+	// the error surfacing after the consumer returned; same model behaviour, different code path (Cache.save's copy error)
 }
 
 func (k c38Call) coq() string {
@@ -107,6 +109,13 @@ func (b *c38Backend) Load(_ context.Context, _ backend.Handle, length int, offse
 		if length > 0 && length < len(d) {
 			d = d[:length]
 		}
+		if k.mid {
+			// the consumer's own verdict decides, as with real backends: a consumer that swallows the
+			// read error makes Load succeed
+			err := fn(io.MultiReader(bytes.NewReader(d), c38ErrReader{}))
+			k.post.apply(b.path)
+			return err
+		}
 		_ = fn(bytes.NewReader(d))
 		k.post.apply(b.path)
 		return errors.New("verif: unexpected EOF after the consumer returned")
@@ -120,6 +129,12 @@ func (b *c38Backend) Load(_ context.Context, _ backend.Handle, length int, offse
 	}
 	k.post.apply(b.path)
 	return nil
+}
+
+type c38ErrReader struct{}
+
+func (c38ErrReader) Read([]byte) (int, error) {
+	return 0, errors.New("verif: connection reset mid-stream")
 }
 
 type c38Op struct {
@@ -320,6 +335,7 @@ func engineC38(c *vctx) error {
 						s[i].fail = true
 					case 1, 2:
 						s[i].late = true
+						s[i].mid = rng.bool()
 						s[i].ans = append([]byte{}, truth[:rng.intn(len(truth))]...) // strictly short: LoadRaw hashes what the consumer saw even on error
 					}
 				}
@@ -333,6 +349,7 @@ func engineC38(c *vctx) error {
 				s[i].ans = corrupt(rng, truth)
 			case 3:
 				s[i].late = true
+				s[i].mid = rng.bool()
 				s[i].ans = append([]byte{}, truth[:rng.intn(len(truth))]...) // strictly short: LoadRaw hashes what the consumer saw even on error
 			}
 		}
@@ -402,6 +419,33 @@ func engineC38(c *vctx) error {
 						{len: 1, off: len(tl) - 1, before: c38Env{kind: 1}, script: []c38Call{{ans: tl[:1], late: true}, okl}},
 						{len: 1, off: len(tl) - 1, script: []c38Call{okl, okl}},
 					})
+					// the reader fails in the MIDDLE of the first cache-filling download (k bytes, then a read
+					// error): nothing may be cached, the caller gets an error, later loads see the repository
+					for _, cut := range []int{1, len(tl) / 2, len(tl) - 1} {
+						tm := mkTruth(rng)
+						if cut >= len(tm) {
+							cut = len(tm) - 1
+						}
+						okm := c38Call{ans: tm}
+						midc := c38Call{ans: tm[:cut], late: true, mid: true}
+						runCase("corpus-mid-read-error", t, tm, c38Env{}, []c38Op{
+							{len: 0, off: 0, script: []c38Call{midc}},
+							{len: 0, off: 0, script: []c38Call{okm, okm}},
+							{len: 1, off: len(tm) - 1, script: []c38Call{okm, okm}},
+							{len: len(tm) - cut, off: cut, before: c38Env{kind: 1}, script: []c38Call{midc, okm}},
+							{len: len(tm) - cut, off: cut, script: []c38Call{okm, okm}},
+						})
+						if t.raw {
+							tm2 := mkTruth(rng)
+							okm2 := c38Call{ans: tm2}
+							c2 := min(cut, len(tm2)-1)
+							runCase("corpus-mid-read-error-raw", t, tm2, c38Env{}, []c38Op{
+								{raw: true, script: []c38Call{{ans: tm2[:c2], late: true, mid: true}, okm2, okm2}},
+								{len: len(tm2), off: 0, script: []c38Call{okm2, okm2}},
+								{raw: true, script: []c38Call{okm2, okm2}},
+							})
+						}
+					}
 					tl2 := mkTruth(rng)
 					okl2 := c38Call{ans: tl2}
 					runCase("corpus-late-error-raw", t, tl2, c38Env{}, []c38Op{
